@@ -12,6 +12,7 @@ from rustlex import scan_items, match_bracket, strip_comments, next_token_pos, L
 
 REPO = os.environ.get('VERIF_REPO', '/repo')
 VERIF = os.path.dirname(os.path.dirname(os.path.abspath(__file__)))
+NO_LOOP_ISOLATION = bool(os.environ.get('VERIF_NO_LOOP_ISOLATION'))   # second-opinion run: every loop sees the facts established before it
 VACUITY = bool(os.environ.get('VERIF_VACUITY'))   # set by the driver for the probe run only
 GEN = os.environ.get('VERIF_GEN_DIR') or os.path.join(VERIF, 'gen')   # VERIF_GEN_DIR: scratch runs (seeded-change triage in parallel) only
 
@@ -267,6 +268,8 @@ class Unit:
         # their own text only (no solver state carried over from neighbouring functions -> no cross-function flakiness)
         if spinoff or (spinoff is None and (loops or splices)):
             attrs = attrs + '#[verifier::spinoff_prover]\n'
+        if NO_LOOP_ISOLATION and 'loop_isolation' not in attrs and re.search(r'\b(while|loop|for)\b', body):
+            attrs = attrs + '#[verifier::loop_isolation(false)]\n#[verifier::allow_complex_invariants]\n'
         # loops
         loops = loops or {}
         found = find_loops(body)
@@ -361,6 +364,15 @@ class Unit:
             cnt = body.count(anchor)
             if cnt == 0 and optional:
                 # proof-bookkeeping splice whose anchor is gone: skip it; the obligations it supported then fail on their own
+                continue
+            if cnt >= 1 and len(sp) > 3 and sp[3] == 'last':
+                kk = body.rindex(anchor)
+                if where == 'before':
+                    body = body[:kk] + ins + '\n' + body[kk:]
+                elif where == 'after':
+                    body = body[:kk + len(anchor)] + '\n' + ins + body[kk + len(anchor):]
+                else:
+                    raise ValueError(where)
                 continue
             if cnt >= 1 and first:
                 # proof help for the FIRST occurrence only (e.g. the original early `return;`): an exit added later gets no help and
